@@ -340,6 +340,22 @@ func startMemoryWatchdog(limit uint64, prop string, seed uint64, shard int, outD
 	}()
 }
 
+// WatchMemory calls onBlowup once when the process exceeds limit bytes (used by
+// replay, so that replaying a memory-blowup verdict ends with a verdict too).
+func WatchMemory(limit uint64, onBlowup func(mib uint64)) {
+	sample := []metrics.Sample{{Name: "/memory/classes/total:bytes"}}
+	go func() {
+		for {
+			time.Sleep(50 * time.Millisecond)
+			metrics.Read(sample)
+			if sample[0].Value.Kind() == metrics.KindUint64 && sample[0].Value.Uint64() >= limit {
+				onBlowup(sample[0].Value.Uint64() >> 20)
+				return
+			}
+		}
+	}()
+}
+
 // RunShard executes one shard of a property's plan. It returns the stats and
 // whether a harness error occurred.
 func RunShard(prop, tier string, seed uint64, shard, shards int, plan []PlanItem, findings *Findings, outDir string, budget time.Duration) (*ShardStats, error) {
